@@ -579,11 +579,15 @@ def basename_glob_match(glob, path):
     """-g patterns of the forms `*.ext`, `name*.ext`, `**/*.ext`: README example
     `stylua -g '*.lua' -g '!*.spec.lua' -- .` = "all Lua files except ..." -> matched at any depth."""
     g = glob[3:] if glob.startswith("**/") else glob
-    if "/" in g:
-        raise ValueError("model does not implement path globs: " + glob)
     rx = ""
     for ch in g:
         rx += "[^/]*" if ch == "*" else ("[^/]" if ch == "?" else re.escape(ch))
+    if "/" in g:
+        # a pattern with a directory part is anchored: it is matched against the path relative to the
+        # working directory (gitignore rules, which the --glob documentation refers to); `*` stays in one level
+        if glob.startswith("**/") or "**" in g:
+            raise ValueError("model does not implement this path glob: " + glob)
+        return re.fullmatch(rx, path) is not None
     return re.fullmatch(rx, posixpath.basename(path)) is not None
 
 
